@@ -7,8 +7,6 @@ import PartituraModel.Proofs.C09Shape
 namespace C09
 open Model.Unfold
 
-/-- index of the repeated section: 1 when there is music before the repeat, else 0 -/
-def vBody (pre : Bool) : Nat := if pre then 1 else 0
 
 def vNext (pre : Bool) (k : Nat) (post : Bool) : Dest :=
   if post then .seg (vBody pre + k + 1) else .fin
@@ -22,7 +20,6 @@ def vTo (pre : Bool) (k : Nat) (post : Bool) (i : Nat) : List Dest :=
   else if i ≤ vBody pre + k then [if i - vBody pre < k then .seg (vBody pre) else vNext pre k post]
   else [.fin]
 
-def vLen (pre : Bool) (k : Nat) (post : Bool) : Nat := vBody pre + 1 + k + (if post then 1 else 0)
 
 /-- the segment table `add_segments` builds for a repeat with endings 1..k: the section offers the brackets in
 order, every bracket but the last jumps back, the last goes on -/
